@@ -148,6 +148,8 @@ pub struct Puppet {
     pub lim: VictimLimits,
     pub victim_cids: BTreeMap<u64, (Vec<u8>, [u8; 16])>,
     pub closed: Option<CloseInfo>,
+    /// every CONNECTION_CLOSE seen (the first one is also in `closed`); bounded
+    pub closes: Vec<CloseInfo>,
     pub handshake_done: bool,
     pub largest_acked: [Option<u64>; 3],
     pub rx_frames: Vec<(u64, usize, Frame)>,
@@ -157,6 +159,7 @@ pub struct Puppet {
     pub tx_datagrams: u64,
     pub tx_bytes: u64,
     pub undecodable: u64,
+    pub unauthenticated: u64,
     pub got_retry: bool,
     pub got_vn: bool,
     pub token: Vec<u8>,
@@ -166,6 +169,10 @@ pub struct Puppet {
     /// keep ACKing what arrives (a polite hostile peer); when false only the handshake is acknowledged
     pub ack_everything: bool,
     pub first_flight_seen: bool,
+    /// further connection IDs the puppet issued through NEW_CONNECTION_ID frames
+    pub my_cids: Vec<Vec<u8>>,
+    /// 1-RTT key generation in use (follows key updates initiated by the victim)
+    pub gen: u64,
 }
 
 fn space_ty(space: usize, side: Side) -> PktType {
@@ -182,7 +189,7 @@ impl Puppet {
         let mut odcid = Vec::new();
         let mut i = 0;
         while odcid.len() < odcid_len.clamp(8, 20) {
-            odcid.extend_from_slice(&crate::core::mix(seed ^ 0x0dc1d, i).to_le_bytes());
+            odcid.extend_from_slice(&crate::core::mix(seed ^ 0x9bb7_e7a1, i).to_le_bytes());
             i += 1;
         }
         odcid.truncate(odcid_len.clamp(8, 20));
@@ -228,6 +235,7 @@ impl Puppet {
             lim: VictimLimits::default(),
             victim_cids: BTreeMap::new(),
             closed: None,
+            closes: vec![],
             handshake_done: false,
             largest_acked: [None; 3],
             rx_frames: vec![],
@@ -237,6 +245,7 @@ impl Puppet {
             tx_datagrams: 0,
             tx_bytes: 0,
             undecodable: 0,
+            unauthenticated: 0,
             got_retry: false,
             got_vn: false,
             token: vec![],
@@ -244,6 +253,8 @@ impl Puppet {
             server_nonce: crate::core::mix(seed, 0x4e0) | 1,
             ack_everything: true,
             first_flight_seen: false,
+            my_cids: vec![],
+            gen: 0,
         }
     }
 
@@ -297,7 +308,7 @@ impl Puppet {
         match space {
             0 => level_key(self.conn, 0, self.side),
             1 => level_key(self.session(), 1, self.side),
-            _ => level_key(self.session(), 2, self.side),
+            _ => level_key(self.session(), 2 + self.gen, self.side),
         }
     }
 
@@ -351,7 +362,7 @@ impl Puppet {
             token: if space == 0 && self.side.is_client() { &self.token } else { &[] },
             pn: n,
             pn_len: 4,
-            key_phase: false,
+            key_phase: space == 2 && self.gen & 1 == 1,
             payload,
             key: self.tx_key(space),
             min_len,
@@ -385,7 +396,20 @@ impl Puppet {
     pub fn on_datagram(&mut self, t: u64, d: &[u8]) -> Vec<Vec<u8>> {
         self.rx_datagrams += 1;
         self.rx_bytes += d.len() as u64;
-        let pkts = wire::decode_datagram(d, self.scid.len());
+        // short header packets may carry any connection ID the puppet has issued
+        let mut cid_len = self.scid.len();
+        if !d.is_empty() && d[0] & 0x80 == 0 {
+            let mut best: Option<usize> = None;
+            for c in std::iter::once(&self.scid).chain(self.my_cids.iter()) {
+                if d.len() > c.len() && d[1..1 + c.len()] == c[..] && best.is_none_or(|b| c.len() > b) {
+                    best = Some(c.len());
+                }
+            }
+            if let Some(b) = best {
+                cid_len = b;
+            }
+        }
+        let pkts = wire::decode_datagram(d, cid_len);
         for p in pkts {
             let Ok(p) = p else {
                 self.undecodable += 1;
@@ -403,10 +427,11 @@ impl Puppet {
                 _ => {}
             }
             let Some(space) = p.ty.space() else { continue };
-            if p.ty == PktType::Short && p.dcid != self.scid {
+            if p.ty == PktType::Short && p.dcid != self.scid && !self.my_cids.contains(&p.dcid) {
                 self.undecodable += 1;
                 continue;
             }
+
             if self.side.is_server() && self.hs == 0 && p.ty == PktType::Initial {
                 self.odcid = p.dcid.clone();
                 self.dcid = p.scid.clone();
@@ -418,6 +443,28 @@ impl Puppet {
                 self.first_flight_seen = true;
             }
             let pn = wire::expand_pn(self.rx[space].largest, p.pn_trunc, p.pn_len);
+            // authenticate like a real peer would: stateless resets and stray datagrams must not be
+            // mistaken for packets of the connection (nor for a key update)
+            if self.conn != 0 && (space == 0 || self.nonce.is_some()) {
+                let header = &d[p.start..p.start + p.header_len];
+                let peer = !self.side;
+                let key_for = |gen: u64| match space {
+                    0 => level_key(self.conn, 0, peer),
+                    1 => level_key(self.session(), 1, peer),
+                    _ => level_key(self.session(), 2 + gen, peer),
+                };
+                let ok_now = crate::simcrypto::packet_tag(key_for(self.gen), pn, header, &p.payload)[..] == p.tag[..];
+                if !ok_now {
+                    let ok_next = space == 2 && crate::simcrypto::packet_tag(key_for(self.gen + 1), pn, header, &p.payload)[..] == p.tag[..];
+                    if ok_next {
+                        // the victim updated its keys: follow
+                        self.gen += 1;
+                    } else {
+                        self.unauthenticated += 1;
+                        continue;
+                    }
+                }
+            }
             let Ok(frames) = wire::decode_frames(&p.payload) else {
                 self.undecodable += 1;
                 continue;
@@ -490,11 +537,17 @@ impl Puppet {
                 self.victim_cids.insert(*seq, (cid.clone(), *reset_token));
             }
             Frame::ConnectionClose { code, frame_type, reason } => {
+                if self.closes.len() < 32 {
+                    self.closes.push(CloseInfo { app: false, code: *code, frame_type: *frame_type, reason: reason.clone(), space, t });
+                }
                 if self.closed.is_none() {
                     self.closed = Some(CloseInfo { app: false, code: *code, frame_type: *frame_type, reason: reason.clone(), space, t });
                 }
             }
             Frame::ApplicationClose { code, reason } => {
+                if self.closes.len() < 32 {
+                    self.closes.push(CloseInfo { app: true, code: *code, frame_type: 0, reason: reason.clone(), space, t });
+                }
                 if self.closed.is_none() {
                     self.closed = Some(CloseInfo { app: true, code: *code, frame_type: 0, reason: reason.clone(), space, t });
                 }
